@@ -37,7 +37,14 @@ META = {
             "scanner's for the same text). No _partial theorems. Carried only by the correspondence: that the models "
             "are the code (in particular that the Rust slices panic exactly where the model's checked slices do: "
             "debug profile, overflow checks on, every observed panic reported), float text, and the REPL/wasm "
-            "front-end loops being the two-line loop readAllF models (replayed in the harness).",
+            "front-end loops being the two-line loop readAllF models (replayed in the harness). The scanner model "
+            "follows fix c1c04ca (1e-7, 2.5E+3, .5e-1 are one Number token: numberTail / dotNumberTail carry the three "
+            "booleans mantissa, digits, marker of the Rust loops; the former loops are kept as numberTailPinned / "
+            "dotNumberTailPinned for C16's counter-witness); every theorem above holds unchanged for the new loops "
+            "(they rest on the per-piece invariant Piece.Good), the token-level statement about the new spellings is "
+            "C16's signed_exponent_is_number_token, and the generators (token soup pieces, mutation pieces, number "
+            "spellings, well-formed atoms, and an exhaustive mantissa x marker x sign x digits x follower grid) "
+            "exercise them on purpose.",
     "technique": "Lean 4 proof (fuel adequacy, span discipline, token consumption by mutual induction, scanner shift/suffix lemmas, token-shape invariant for panic freedom) + randomized model-vs-implementation correspondence + implementation-vs-specification oracle",
 }
 MODULE = "Marwood.Proofs.C11"
@@ -130,6 +137,9 @@ def streams(ctx):
     q = ctx.quick()
     run_stream(ctx, "scan-character-classes", ["scan-classes"])
     run_stream(ctx, "scan-random-unicode", ["scan-rand", 30000 if q else 400000])
+    # fix c1c04ca (the sign of an exponent belongs to the number token): exhaustive grid around the new behaviour
+    run_stream(ctx, "scan-signed-exponent-grid", ["scan-exp"])
+    run_stream(ctx, "parse-signed-exponent-grid", ["parse-exp"])
     run_stream(ctx, "parse-generated-programs", ["parse-gen", 40000 if q else 400000])
     run_stream(ctx, "parse-token-soup", ["parse-soup", 40000 if q else 400000])
     run_stream(ctx, "parse-mutated-programs", ["parse-mut", 40000 if q else 400000])
@@ -145,7 +155,8 @@ def run(ctx):
     return standard_run(
         ctx, MODULE, THEOREMS, ["reader"], streams,
         rule="scanner: every scalar value < 0x300 (+2000 sampled) alone and after 7 contexts, random Unicode token "
-             "soup; parser: generated datum sequences (all literal kinds, valid and invalid spellings, three bracket "
+             "soup; the grid mantissa x exponent marker x sign x digits x following text (21120 texts, scanner and "
+             "reader) around fix c1c04ca; parser: generated datum sequences (all literal kinds, valid and invalid spellings, three bracket "
              "kinds, dotted tails, vectors, quote marks, comments), token soup, 1-3 random edits of generated "
              "programs, and every token-boundary prefix of generated sequences; compared: datum in wire form, "
              "remaining text, error class, panic; plus well-formed inputs against the token-level specification; "
